@@ -353,9 +353,9 @@ func (gs *gState) work(perG int, start <-chan struct{}, wg *sync.WaitGroup) {
 	r := gs.r
 	<-start
 	for len(gs.ctxs) < perG {
-		switch m := r.Intn(20); {
-		case m < 6: // a tight batch of fresh contexts, logged afterwards: maximal overlap of the allocations
-			b := r.Pick(4, 16, 64, 256)
+		switch m := r.Intn(40); {
+		case m < 2: // a tight batch of fresh contexts, logged afterwards: maximal overlap of the allocations
+			b := r.Pick(2, 4, 8, 16, 32, 64)
 			if b > perG-len(gs.ctxs) {
 				b = perG - len(gs.ctxs)
 			}
@@ -372,19 +372,19 @@ func (gs *gState) work(perG int, start <-chan struct{}, wg *sync.WaitGroup) {
 			for i := base; i < base+b; i++ {
 				gs.log(gs.ctxs[i], gs.nLines())
 			}
-		case m < 11:
+		case m < 12:
 			gs.log(gs.newCtx(kLib), gs.nLines())
-		case m < 13:
-			gs.log(gs.newCtx(kAlias), gs.nLines())
-		case m < 14:
-			gs.log(gs.newCtx(kAliasFresh), gs.nLines())
-		case m < 15:
-			gs.log(gs.newCtx(kObjPtr), gs.nLines())
-		case m < 16:
-			gs.log(gs.newCtx(kObjVal), gs.nLines())
-		case m < 17:
-			gs.log(gs.newCtx(kPlain), gs.nLines())
 		case m < 18:
+			gs.log(gs.newCtx(kAlias), gs.nLines())
+		case m < 20:
+			gs.log(gs.newCtx(kAliasFresh), gs.nLines())
+		case m < 24:
+			gs.log(gs.newCtx(kObjPtr), gs.nLines())
+		case m < 28:
+			gs.log(gs.newCtx(kObjVal), gs.nLines())
+		case m < 32:
+			gs.log(gs.newCtx(kPlain), gs.nLines())
+		case m < 36:
 			gs.log(gs.newCtx(kNil), gs.nLines())
 		default: // log with a context made by another goroutine, and make one of my own
 			gs.log(gs.foreign(), 1)
@@ -398,11 +398,15 @@ func (gs *gState) work(perG int, start <-chan struct{}, wg *sync.WaitGroup) {
 
 // ---------------------------------------------------------------------------------------------
 // the line grammar, written from the format in logger.go:
-//   log.New(w, "[<level>] ", Ldate|Ltime|Lmicroseconds)  ->  "[<level>] 2006/01/02 15:04:05.000000 "
-//   then "[pid] " / "[pid][cid] " (absent for an id-less context.Context), then the message, then "\n".
+//
+//	log.New(w, "[<level>] ", Ldate|Ltime|Lmicroseconds)  ->  "[<level>] 2006/01/02 15:04:05.000000 "
+//	then "[pid] " / "[pid][cid] " (absent for an id-less context.Context), then the message, then "\n".
+//
 // `$` is end-of-text (no (?m)), `[^\n]*` cannot cross a newline: the Write must be ONE line.
 var lineRe = regexp.MustCompile(`^\[(info|trace|warn|error)\] (\d{4}/\d{2}/\d{2} \d{2}:\d{2}:\d{2}\.\d{6}) (?:\[(\d+)\](?:\[(-?\d+)\])?[ ]+)?([^\n]*)\n$`)
 var tokenRe = regexp.MustCompile(`k\d+x\d+x\d+z`)
+
+type tok struct{ run, g, seq int }
 
 type parsed struct {
 	ok     bool
@@ -412,27 +416,16 @@ type parsed struct {
 	pid    string
 	cid    int
 	msg    string
-	tokens []string
+	tokens []tok // distinct tokens found anywhere in the Write
 }
 
-func parseWrite(b []byte) (p parsed) {
-	for _, t := range tokenRe.FindAll(b, -1) {
-		p.tokens = append(p.tokens, string(t))
-	}
+// parseRe is the reference parser: the regular expression above, nothing else.
+func parseRe(b []byte) (p parsed) {
 	ix := lineRe.FindSubmatchIndex(b)
 	if ix == nil {
 		return
 	}
-	switch string(b[ix[2]:ix[3]]) {
-	case "info":
-		p.level = lvInfo
-	case "trace":
-		p.level = lvTrace
-	case "warn":
-		p.level = lvWarn
-	default:
-		p.level = lvError
-	}
+	p.level = levelOf(b[ix[2]:ix[3]])
 	if ix[6] >= 0 {
 		p.hasPid, p.pid = true, string(b[ix[6]:ix[7]])
 	}
@@ -445,6 +438,165 @@ func parseWrite(b []byte) (p parsed) {
 	}
 	p.msg = string(b[ix[10]:ix[11]])
 	p.ok = true
+	return
+}
+
+func levelOf(b []byte) int {
+	for l, n := range labelOf {
+		if string(b) == n {
+			return l
+		}
+	}
+	return -1
+}
+
+func digits(b []byte, i int) int { // index after the run of digits starting at i
+	for i < len(b) && b[i] >= '0' && b[i] <= '9' {
+		i++
+	}
+	return i
+}
+
+// parseFast is a hand-written recogniser of exactly lineRe (regexp matching costs ~40 µs per line
+// under the race detector).  It is cross-checked against parseRe on every Write it rejects and on
+// a sample of those it accepts; a disagreement is reported as a harness error.
+func parseFast(b []byte) (p parsed) {
+	n := len(b)
+	if n == 0 || b[n-1] != '\n' {
+		return
+	}
+	for i := 0; i < n-1; i++ {
+		if b[i] == '\n' {
+			return
+		}
+	}
+	if b[0] != '[' {
+		return
+	}
+	i := 1
+	for i < n && b[i] != ']' {
+		i++
+	}
+	if i >= n {
+		return
+	}
+	lv := levelOf(b[1:i])
+	if lv < 0 {
+		return
+	}
+	i++ // after ']'
+	// " dddd/dd/dd dd:dd:dd.dddddd "
+	const shape = " dddd/dd/dd dd:dd:dd.dddddd "
+	if i+len(shape) > n {
+		return
+	}
+	for k := 0; k < len(shape); k++ {
+		c := b[i+k]
+		if shape[k] == 'd' {
+			if c < '0' || c > '9' {
+				return
+			}
+		} else if c != shape[k] {
+			return
+		}
+	}
+	i += len(shape)
+	p.ok, p.level = true, lv
+	rest := i
+	// optional "[pid]" ["[cid]"] spaces+
+	if i < n && b[i] == '[' {
+		j := digits(b, i+1)
+		if j > i+1 && j < n && b[j] == ']' {
+			pidS, pidE := i+1, j
+			j++
+			cidS, cidE := -1, -1
+			if j < n && b[j] == '[' {
+				k := j + 1
+				if k < n && b[k] == '-' {
+					k++
+				}
+				e := digits(b, k)
+				if e > k && e < n && b[e] == ']' {
+					cidS, cidE = j+1, e
+					j = e + 1
+				}
+			}
+			if j < n && b[j] == ' ' {
+				for j < n && b[j] == ' ' {
+					j++
+				}
+				p.hasPid, p.pid = true, string(b[pidS:pidE])
+				if cidS >= 0 {
+					v, err := strconv.Atoi(string(b[cidS:cidE]))
+					if err != nil {
+						return parsed{}
+					}
+					p.hasCid, p.cid = true, v
+				}
+				rest = j
+			}
+		}
+	}
+	p.msg = string(b[rest : n-1])
+	return
+}
+
+func sameParse(a, b parsed) bool {
+	return a.ok == b.ok && (!a.ok || a.level == b.level && a.hasPid == b.hasPid && a.hasCid == b.hasCid && a.pid == b.pid && a.cid == b.cid && a.msg == b.msg)
+}
+
+// scanTokens finds every k<run>x<goroutine>x<seq>z in the Write: tokenRe, hand-written (same
+// leftmost, non-overlapping matches).
+func scanTokens(b []byte) (out []tok) {
+	for i := 0; i < len(b); i++ {
+		if b[i] != 'k' {
+			continue
+		}
+		a := digits(b, i+1)
+		if a == i+1 || a >= len(b) || b[a] != 'x' {
+			continue
+		}
+		c := digits(b, a+1)
+		if c == a+1 || c >= len(b) || b[c] != 'x' {
+			continue
+		}
+		d := digits(b, c+1)
+		if d == c+1 || d >= len(b) || b[d] != 'z' {
+			continue
+		}
+		r, e1 := strconv.Atoi(string(b[i+1 : a]))
+		g, e2 := strconv.Atoi(string(b[a+1 : c]))
+		q, e3 := strconv.Atoi(string(b[c+1 : d]))
+		if e1 != nil || e2 != nil || e3 != nil {
+			r, g, q = -1, -1, -1 // a token nobody issued
+		}
+		out = append(out, tok{r, g, q})
+		i = d
+	}
+	return
+}
+
+func distinct(ts []tok) []tok {
+	out := ts[:0:0]
+	for _, t := range ts {
+		dup := false
+		for _, o := range out {
+			dup = dup || o == t
+		}
+		if !dup {
+			out = append(out, t)
+		}
+	}
+	return out
+}
+
+func parseWrite(b []byte, crossCheck bool) (p parsed, disagree bool) {
+	p = parseFast(b)
+	ts := scanTokens(b)
+	if !p.ok || crossCheck {
+		disagree = !sameParse(p, parseRe(b)) || len(tokenRe.FindAll(b, -1)) != len(ts)
+	}
+	p.tokens = distinct(ts)
 	return
 }
 
@@ -488,6 +640,20 @@ func q(b []byte) string {
 	return strconv.Quote(string(b))
 }
 
+type classKey struct {
+	ent, kind int
+	shape     string
+}
+
+// local tallies of one run, flushed into the monitor once (the monitor's mutex is too hot for
+// one call per log line under the race detector)
+type tally struct {
+	cnt map[string]int64
+	cls map[classKey]bool
+}
+
+func (t *tally) add(name string, n int64) { t.cnt[name] += n }
+
 func runOnce(m *mon.M, own *owners, run, nG, perG int, pid string) {
 	w := &recWriter{}
 	logger.Switch(w) // quiescent: no other goroutine is logging
@@ -515,24 +681,13 @@ func runOnce(m *mon.M, own *owners, run, nG, perG int, pid string) {
 	}
 	close(start)
 	wg.Wait()
-	gss = append(gss, main)
+	gss = append(gss, main) // gss[g].g == g for all g in 0..nG
 
 	// ---- the writer's record
 	w.mu.Lock()
 	w.done = true
 	buf, ends := w.buf, w.ends
 	w.mu.Unlock()
-	ps := make([]parsed, len(ends))
-	const chunk = 512
-	mon.Parallel((len(ends)+chunk-1)/chunk, func(_, c int) {
-		for i := c * chunk; i < (c+1)*chunk && i < len(ends); i++ {
-			s := 0
-			if i > 0 {
-				s = ends[i-1]
-			}
-			ps[i] = parseWrite(buf[s:ends[i]])
-		}
-	})
 	raw := func(i int) []byte {
 		s := 0
 		if i > 0 {
@@ -540,74 +695,99 @@ func runOnce(m *mon.M, own *owners, run, nG, perG int, pid string) {
 		}
 		return buf[s:ends[i]]
 	}
-	m.Count("runs", 1)
-	m.Count("goroutines", int64(nG))
-	m.Count("writes", int64(len(ends)))
+	ps := make([]parsed, len(ends))
+	bad := make([]bool, len(ends))
+	const chunk = 1024
+	mon.Parallel((len(ends)+chunk-1)/chunk, func(_, c int) {
+		for i := c * chunk; i < (c+1)*chunk && i < len(ends); i++ {
+			ps[i], bad[i] = parseWrite(raw(i), i%61 == 0)
+		}
+	})
+	tl := &tally{cnt: map[string]int64{}, cls: map[classKey]bool{}}
+	tl.add("runs", 1)
+	tl.add("goroutines", int64(nG))
+	tl.add("writes", int64(len(ends)))
+	tl.add("parser_crosschecks", int64((len(ends)+60)/61))
 	m.Classf("goroutines=%d", nG)
 	where := func(i int) map[string]interface{} {
 		return map[string]interface{}{"run": run, "goroutines": nG, "contexts_per_goroutine": perG, "write_index": i, "write": q(raw(i))}
 	}
-	tokIdx := make(map[string][]int32, len(ends))
+	// hits[g][seq]: the Writes that contain the token of call seq of goroutine g
+	first := make([][]int32, len(gss))
+	count := make([][]uint16, len(gss))
+	for g, gs := range gss {
+		first[g] = make([]int32, len(gs.calls))
+		count[g] = make([]uint16, len(gs.calls))
+	}
 	for i := range ps {
 		p := &ps[i]
-		if !p.ok {
-			m.Violationf("c18:line-not-whole", where(i), "a Write to the installed writer is not exactly one complete line: %s", q(raw(i)))
-		} else {
-			m.Count("lines_wellformed", 1)
-			if len(p.tokens) != 1 {
-				m.Violationf("c18:line-not-whole", where(i), "a Write carries the tokens of %d logging calls (want exactly 1): %s", len(p.tokens), q(raw(i)))
+		if bad[i] {
+			m.Violationf("harness:c18-parser-disagree", where(i), "hand-written parser and reference regexp disagree on %s", q(raw(i)))
+		}
+		known := 0
+		for _, t := range p.tokens {
+			if t.run == run && t.g >= 0 && t.g < len(gss) && t.seq >= 0 && t.seq < len(first[t.g]) {
+				known++
+				if count[t.g][t.seq] == 0 {
+					first[t.g][t.seq] = int32(i)
+				}
+				if count[t.g][t.seq] < 65535 {
+					count[t.g][t.seq]++
+				}
 			}
 		}
-		seen := map[string]bool{}
-		for _, t := range p.tokens {
-			if !seen[t] {
-				tokIdx[t] = append(tokIdx[t], int32(i))
-				seen[t] = true
-			}
+		switch {
+		case !p.ok:
+			m.Violationf("c18:line-not-whole", where(i), "a Write to the installed writer is not exactly one complete line: %s", q(raw(i)))
+		case len(p.tokens) != 1 || known != 1:
+			m.Violationf("c18:line-not-whole", where(i), "a Write carries the tokens of %d logging calls (%d of this run), want exactly 1: %s", len(p.tokens), known, q(raw(i)))
+		default:
+			tl.add("lines_wellformed", 1)
 		}
 	}
 
 	// ---- every logging call: exactly one Write, right label, right prefix, right message
-	for _, gs := range gss {
+	for g, gs := range gss {
 		m.Cases(len(gs.calls))
 		for ci := range gs.calls {
 			c := &gs.calls[ci]
 			e := &entries[c.ent]
+			kind := c.ctx.kind
 			rep := func(i int) map[string]interface{} {
 				r := map[string]interface{}{"run": run, "goroutines": nG, "contexts_per_goroutine": perG, "goroutine": gs.g, "token": c.token,
-					"entry": e.name, "context_kind": kindName[c.ctx.kind], "shape": c.shape, "want_message": c.want}
+					"entry": e.name, "context_kind": kindName[kind], "shape": c.shape, "want_message": c.want}
 				if i >= 0 {
 					r["write"] = q(raw(i))
 				}
 				return r
 			}
-			m.Classf("e=%s/k=%s/s=%s", e.name, kindName[c.ctx.kind], c.shape)
-			m.Count("calls_"+kindName[c.ctx.kind], 1)
-			ws := tokIdx[c.token]
+			tl.cls[classKey{c.ent, kind, c.shape}] = true
+			tl.add("calls_"+kindName[kind], 1)
+			n := int(count[g][ci])
 			if e.level == lvInfo {
-				m.Count("info_calls", 1)
-				if len(ws) == 0 {
-					m.Count("info_calls_silent", 1) // discarded by design (DESIGN.md §4.1)
+				tl.add("info_calls", 1)
+				if n == 0 {
+					tl.add("info_calls_silent", 1) // discarded by design (DESIGN.md §4.1)
 					continue
 				}
-				m.Count("info_calls_with_output", 1)
+				tl.add("info_calls_with_output", 1)
 			}
-			if len(ws) == 0 {
-				m.Violationf("c18:token-missing", rep(-1), "%s(%s context): no Write contains the call's token %s", e.name, kindName[c.ctx.kind], c.token)
+			if n == 0 {
+				m.Violationf("c18:token-missing", rep(-1), "%s(%s context): no Write contains the call's token %s", e.name, kindName[kind], c.token)
 				continue
 			}
-			if len(ws) > 1 {
-				m.Violationf("c18:token-twice", rep(int(ws[0])), "%s: token %s appears in %d Writes, e.g. %s and %s", e.name, c.token, len(ws), q(raw(int(ws[0]))), q(raw(int(ws[1]))))
+			i := int(first[g][ci])
+			if n > 1 {
+				m.Violationf("c18:token-twice", rep(i), "%s: token %s appears in %d Writes, the first is %s", e.name, c.token, n, q(raw(i)))
 				continue
 			}
-			i := int(ws[0])
 			p := &ps[i]
 			if !p.ok || len(p.tokens) != 1 {
 				continue // reported above as line-not-whole
 			}
 			c.ctx.lines++
 			if m.WantSample() {
-				m.Sample(map[string]interface{}{"entry": e.name, "context_kind": kindName[c.ctx.kind], "write": string(raw(i)), "goroutines": nG})
+				m.Sample(map[string]interface{}{"entry": e.name, "context_kind": kindName[kind], "write": string(raw(i)), "goroutines": nG})
 			}
 			if p.level != e.level {
 				m.Violationf("c18:line-not-whole:label", rep(i), "%s wrote label [%s], want [%s]: %s", e.name, labelOf[p.level], labelOf[e.level], q(raw(i)))
@@ -617,19 +797,19 @@ func runOnce(m *mon.M, own *owners, run, nG, perG int, pid string) {
 				if c.shape == "f-argindex" {
 					scope = ":explicit-arg-index"
 				}
-				m.Violationf("c18:message-differs"+scope, rep(i), "%s(%s context) message is %q, want %q", e.name, kindName[c.ctx.kind], p.msg, c.want)
+				m.Violationf("c18:message-differs"+scope, rep(i), "%s(%s context) message is %q, want %q", e.name, kindName[kind], p.msg, c.want)
 			}
-			if p.hasPid && p.pid != pid && c.ctx.kind != kPlain {
+			if p.hasPid && p.pid != pid && kind != kPlain {
 				m.Violationf("c18:wrong-cid:pid", rep(i), "pid in prefix is %s, process is %s", p.pid, pid)
 			}
-			switch c.ctx.kind {
+			switch kind {
 			case kNil:
 				if !p.hasPid || p.hasCid {
 					m.Violationf("c18:wrong-cid:nil", rep(i), "nil context must log with [pid] only: %s", q(raw(i)))
 				}
 			case kObjPtr, kObjVal:
 				if !p.hasCid || p.cid != c.ctx.objCid {
-					m.Violationf("c18:wrong-cid:object", rep(i), "object with Cid()=%d logged as %s", c.ctx.objCid, q(raw(i)))
+					m.Violationf("c18:wrong-cid:object", rep(i), "%s with an object whose Cid() is %d wrote %s", e.name, c.ctx.objCid, q(raw(i)))
 				}
 			case kLib, kAlias:
 				if !p.hasCid {
@@ -647,16 +827,16 @@ func runOnce(m *mon.M, own *owners, run, nG, perG int, pid string) {
 						m.Violationf("c18:wrong-cid:library", rep(i), "one context logged with id %d and with id %d", c.ctx.id, p.cid)
 					}
 				} else {
-					m.Count("alias_nosrc_without_id", 1) // not constrained by the statement
+					tl.add("alias_nosrc_without_id", 1) // not constrained by the statement
 				}
 			case kPlain:
 				switch {
 				case p.hasCid:
-					m.Count("plain_ctx_prefix_pid_cid", 1)
+					tl.add("plain_ctx_prefix_pid_cid", 1)
 				case p.hasPid:
-					m.Count("plain_ctx_prefix_pid", 1)
+					tl.add("plain_ctx_prefix_pid", 1)
 				default:
-					m.Count("plain_ctx_prefix_none", 1)
+					tl.add("plain_ctx_prefix_none", 1)
 				}
 			}
 		}
@@ -665,29 +845,29 @@ func runOnce(m *mon.M, own *owners, run, nG, perG int, pid string) {
 	// ---- ids: fresh ones pairwise distinct in the whole process, alias == source
 	for _, gs := range gss {
 		for _, c := range gs.ctxs {
-			m.Count("contexts_"+kindName[c.kind], 1)
+			tl.add("contexts_"+kindName[c.kind], 1)
 			switch c.kind {
 			case kLib, kAliasFresh:
 				if !c.resolved {
-					m.Count("fresh_contexts_id_unreadable", 1)
+					tl.add("fresh_contexts_id_unreadable", 1)
 					continue
 				}
-				m.Count("fresh_ids_checked", 1)
+				tl.add("fresh_ids_checked", 1)
 				who := (uint32(run)<<8 | uint32(gs.g)) + 1
 				if prev, dup := own.claim(c.id, who); dup {
-					m.Count("duplicate_ids", 1)
+					tl.add("duplicate_ids", 1)
 					m.Violationf("c18:duplicate-connection-id", map[string]interface{}{"run": run, "goroutines": nG, "contexts_per_goroutine": perG, "id": c.id,
 						"first": whoStr(prev), "second": whoStr(who), "kind": kindName[c.kind]},
 						"id %d handed out twice: to a context of %s and to context #%d of %s (%s)", c.id, whoStr(prev), c.seq, whoStr(who), kindName[c.kind])
 				}
 			case kAlias:
 				if !c.resolved || !c.src.resolved {
-					m.Count("alias_id_unreadable", 1)
+					tl.add("alias_id_unreadable", 1)
 					continue
 				}
-				m.Count("alias_checked", 1)
+				tl.add("alias_checked", 1)
 				if c.src.g != gs.g {
-					m.Count("alias_of_other_goroutine", 1)
+					tl.add("alias_of_other_goroutine", 1)
 				}
 				if c.id != c.src.id {
 					m.Violationf("c18:alias-id-differs", map[string]interface{}{"run": run, "goroutines": nG, "alias_id": c.id, "source_id": c.src.id},
@@ -702,35 +882,44 @@ func runOnce(m *mon.M, own *owners, run, nG, perG int, pid string) {
 	if late > 0 {
 		m.Violationf("c18:line-not-whole:late-write", map[string]interface{}{"run": run}, "%d Writes arrived after all logging calls had returned", late)
 	}
-	m.Count("writer_close_calls", int64(closed))
+	tl.add("writer_close_calls", int64(closed))
+	for k, v := range tl.cnt {
+		m.Count(k, v)
+	}
+	for k := range tl.cls {
+		m.Classf("e=%s/k=%s/s=%s", entries[k.ent].name, kindName[k.kind], k.shape)
+	}
 }
 
 func TestVerif_C18_Conc(t *testing.T) {
 	m := mon.New("C18", "conc")
 	defer m.Finish(t)
-	m.Rule("runs of N in {2..64} goroutines released together; each makes contexts {WithContext (also in tight batches of 4..256), AliasContext of " +
+	m.Rule("runs of N in {2..64} goroutines released together; each makes contexts {WithContext (also in tight batches of 2..64), AliasContext of " +
 		"contexts published by other goroutines, AliasContext without source id, Cid() objects (pointer/value), id-less context.Context, nil} and logs " +
 		"1..4 lines per context through 16 entry points (I/If/T/Tf/W/Wf/E/Ef and Info/Trace/Warn/Error .Println/.Printf) with a unique token, " +
 		"%-rich texts as argument and through %s; Gosched perturbation from the PRNG; writer installed by Switch before the goroutines start. " +
-		"One evaluation = one logging call whose Writes were checked; distinct = (entry, context kind, message shape) observed + goroutine counts")
+		"One evaluation = one logging call whose Writes were checked; distinct = (entry, context kind, message shape) combinations observed " +
+		"(each counted once per run) + goroutine counts")
 	m.Assume("the goroutine schedule is the Go runtime's; only the per-goroutine programs are determined by VERIF_SEED")
 	m.Assume("the id of a library-made context is read from the lines logged with it (no exported accessor); info-level calls are expected silent")
 	m.Assume("concurrent Switch/Close is outside the statement and is not exercised")
 
 	runs := m.N(50, 2000)
-	total := m.N(24000, 9000) // contexts per run, spread over the run's goroutines
+	total := m.N(6000, 3000) // contexts per run, spread over the run's goroutines
 	pid := strconv.Itoa(os.Getpid())
 	own := &owners{other: map[int]uint32{}}
 	sizes := []int{2, 3, 4, 8, 16, 16, 16, 32, 64, 16, 5, 16, 24, 16, 48, 16}
+	budget := int64(runs) * int64(total)
 	m.Require("runs", int64(runs))
-	m.Require("evaluations", int64(runs*total))
-	m.Require("fresh_ids_checked", int64(runs*total/2))
-	m.Require("alias_checked", int64(runs*total/20))
-	m.Require("alias_of_other_goroutine", int64(runs*total/80))
+	m.Require("evaluations", budget)
+	m.Require("fresh_ids_checked", budget/2)
+	m.Require("alias_checked", budget/25)
+	m.Require("alias_of_other_goroutine", budget/50)
 	for _, k := range []string{"nil", "obj-ptr", "obj-val", "lib", "alias", "plain"} {
-		m.Require("calls_"+k, int64(runs*total/40))
+		m.Require("calls_"+k, budget/40)
 	}
-	m.Require("info_calls", int64(runs*total/40))
+	m.Require("info_calls", budget/40)
+	m.Require("parser_crosschecks", budget/100)
 	m.Require("class:e=", 300)
 	m.Require("class:goroutines=", 8)
 	for run := 0; run < runs; run++ {
@@ -743,4 +932,5 @@ func TestVerif_C18_Conc(t *testing.T) {
 	}
 	logger.Switch(io.Discard)
 	m.Note("pid", pid)
+	m.Note("max_goroutines", 64)
 }
